@@ -917,8 +917,14 @@ func (x rangeValue) CompareSameType(op syntax.Token, y_ Value, depth int) (bool,
 }
 
 func (r rangeValue) Has(y Value) (bool, error) {
+	if f, ok := y.(Float); ok && float64(f) != math.Trunc(float64(f)) {
+		return false, nil // a non-integral (or NaN) float equals no element
+	}
 	i, err := NumberToInt(y)
 	if err != nil {
+		if _, ok := y.(Float); ok {
+			return false, nil // infinity
+		}
 		return false, fmt.Errorf("'in <range>' requires integer as left operand, not %s", y.Type())
 	}
 	return r.contains(i), nil
@@ -939,13 +945,25 @@ func rangeEqual(x, y rangeValue) bool {
 }
 
 func (r rangeValue) contains(x Int) bool {
-	x32, err := AsInt32(x)
-	if err != nil {
+	x64_, ok := x.Int64()
+	if !ok || r.len == 0 {
 		return false // out of range
 	}
-	delta := x32 - r.start
-	quo, rem := delta/r.step, delta%r.step
-	return rem == 0 && 0 <= quo && quo < r.len
+	x64 := int(x64_) // int is 64 bits wide here; on 32-bit platforms range parameters are 32-bit
+	if int64(x64) != x64_ {
+		return false
+	}
+	// differences of values within [start, stop] fit in an int64 (see range_)
+	if r.step > 0 {
+		if x64 < r.start || x64 >= r.stop {
+			return false
+		}
+		return uint64(x64-r.start)%uint64(r.step) == 0
+	}
+	if x64 > r.start || x64 <= r.stop {
+		return false
+	}
+	return uint64(r.start-x64)%(uint64(-(r.step+1))+1) == 0
 }
 
 type rangeIterator struct {
